@@ -26,6 +26,7 @@ type Config struct {
 	MapOrderFns   map[string]bool // functions in which map range order is nondeterministic
 	SymbolicLen   bool            // vpNondetString keeps a symbolic length instead of forking
 	TimeoutS      int             // wall-clock budget of one harness run
+	FixedClock    bool            // time.Now returns one fixed instant (harnesses whose logic depends on the clock only through offsets they choose)
 }
 
 func DefaultConfig() Config {
